@@ -318,8 +318,9 @@ func (f *freshFn) classify1(v ssa.Value) origin {
 // valueFields: the receiver fields the type's Value() method reads (the "current value").
 func (a *anchors) valueFields(recv *types.Named) map[string]bool {
 	out := map[string]bool{}
+	recv = recv.Origin()
 	for i := 0; i < recv.NumMethods(); i++ {
-		m := recv.Method(i)
+		m := recv.Method(i).Origin()
 		if m.Name() != "Value" {
 			continue
 		}
